@@ -33,6 +33,22 @@ ALLOWED = {
 }
 
 
+# documented mutators: methods whose PURPOSE is to change the state of their object (one line each)
+INSTANCE_MUTATORS_OK = {
+    ("stix2.datastore.filters::FilterSet.add", "self._filters"): "FilterSet.add: the documented way to grow a filter set",
+    ("stix2.datastore.filters::FilterSet.remove", "self._filters"): "FilterSet.remove",
+    ("stix2.datastore.memory::_ObjectFamily.add", "self.all_versions"): "store content",
+    ("stix2.datastore::CompositeDataSource.add_data_source", "self.data_sources"): "documented membership change",
+    ("stix2.datastore::CompositeDataSource.remove_data_source", "self.data_sources"): "documented membership change",
+    ("stix2.datastore::DataStoreMixin.add", "self.sink"): "delegates to the sink's add()",
+    ("stix2.environment::ObjectFactory.set_default_created", "self._defaults"): "documented setter",
+    ("stix2.environment::ObjectFactory.set_default_creator", "self._defaults"): "documented setter",
+    ("stix2.environment::ObjectFactory.set_default_external_refs", "self._defaults"): "documented setter",
+    ("stix2.environment::ObjectFactory.set_default_object_marking_refs", "self._defaults"): "documented setter",
+    ("stix2.patterns::ObjectPath.merge", "self.property_path"): "documented in-place merge of two paths",
+}
+
+
 def anchor_modules(ctx, prop):
     """relpaths of the modules the property is anchored in (properties.jsonl) plus those its rule instances lie in"""
     here = os.path.dirname(os.path.dirname(os.path.dirname(os.path.abspath(__file__))))
@@ -132,6 +148,11 @@ def find_state(prog, m):
                             and fi.name not in ("__init_subclass__",):
                         out.append((fi, norm(root), x, "class-level container written from a method"))
                     if isinstance(root, ast.Attribute) and isinstance(root.value, ast.Name) and root.value.id == "self" \
+                            and fi.cls is not None and fi.name not in ("__init__", "__new__") \
+                            and (fi.id, norm(root)) not in INSTANCE_MUTATORS_OK and not _is_cache_like(root.attr) \
+                            and not any(getattr(k_, "name", None) == "Property" for k_ in (fi.cls.mro or [])):
+                        out.append((fi, norm(root), x, "container held on the instance filled by a method"))
+                    if isinstance(root, ast.Attribute) and isinstance(root.value, ast.Name) and root.value.id == "self" \
                             and fi.cls is not None and (_is_cache_like(root.attr) or (fi.name not in ("__init__", "__new__") and any(
                                 getattr(k_, "name", None) == "Property" for k_ in (fi.cls.mro or [])))):
                         out.append((fi, norm(root), x, "instance cache written"))
@@ -150,6 +171,13 @@ def find_state(prog, m):
                 root = recv
                 while isinstance(root, ast.Subscript):
                     root = root.value
+                # any object: a container held on self and filled by a method that is not a documented mutator is memory of
+                # earlier calls (a per-pattern constant pool, a per-source index, ...)
+                if isinstance(root, ast.Attribute) and isinstance(root.value, ast.Name) and root.value.id == "self" \
+                        and fi.cls is not None and fi.name not in ("__init__", "__new__") \
+                        and (fi.id, norm(root)) not in INSTANCE_MUTATORS_OK \
+                        and not any(getattr(k_, "name", None) == "Property" for k_ in (fi.cls.mro or [])):
+                    out.append((fi, norm(root), x, "container held on the instance filled by a method"))
                 # a property object (validator) is shared by every instance of its type and lives as long as the process:
                 # a container on it that a method fills is memory of earlier inputs
                 if isinstance(root, ast.Attribute) and isinstance(root.value, ast.Name) and root.value.id == "self" \
